@@ -17,23 +17,46 @@ Definition secure_of (have_sec : Z) (s : machine) : bool :=
   IsSecure {| c_have_sec := have_sec; c_have_virt := 0; c_scr := getl (sys s) 9; c_sctlr := getl (sys s) 11; c_nsacr := getl (sys s) 10 |}
            (cpsr_of s).
 
-(* the address descriptor TranslateAddressV returns for a leaf / for the flat map *)
-Definition leaf_desc (secure : bool) (s : machine) (l : sd_leaf) : AddressDescriptor :=
-  let m := tex_remap (sreg s i_prrr) (sreg s i_nmrr) (lf_texcb l) (lf_s l) in
+(* B3.8.2 (SCTLR.TRE = 0): the default decoding of TEX[2:0], C, B; texcb = TEX:C:B *)
+Definition default_tex (texcb sbit : Z) : MemoryAttributes :=
+  let sh := if sbit =? 1 then 1 else 0 in
+  match texcb with
+  | 0 => mk_MemoryAttributes MemType_STRONGLY_ORDERED 0 0 0 0 0 0 1 1
+  | 1 => mk_MemoryAttributes MemType_DEVICE 0 0 0 0 0 0 1 1
+  | 2 => mk_MemoryAttributes MemType_NORMAL 2 2 2 2 0 0 sh sh
+  | 3 => mk_MemoryAttributes MemType_NORMAL 3 3 2 2 0 0 sh sh
+  | 4 => mk_MemoryAttributes MemType_NORMAL 0 0 0 0 0 0 sh sh
+  | 7 => mk_MemoryAttributes MemType_NORMAL 3 3 3 3 0 0 sh sh
+  | 8 => mk_MemoryAttributes MemType_DEVICE 0 0 0 0 0 0 0 0
+  | _ => if 16 <=? texcb
+         then let '(ia, ih) := attrs_hints (bits texcb 1 0) in let '(oa, oh) := attrs_hints (bits texcb 3 2) in
+              mk_MemoryAttributes MemType_NORMAL ia oa ih oh 0 0 sh sh
+         else new_MemoryAttributes
+  end.
+
+(* the address descriptor TranslateAddressV returns for a leaf / for the flat map; [decode] gives the memory attributes *)
+Definition leaf_desc_gen (decode : Z -> Z -> MemoryAttributes) (secure : bool) (l : sd_leaf) : AddressDescriptor :=
+  let m := decode (lf_texcb l) (lf_s l) in
   mk_AddressDescriptor
     (mk_MemoryAttributes (MemoryAttributes_type m) (MemoryAttributes_innerattrs m) (MemoryAttributes_outerattrs m)
        (MemoryAttributes_innerhints m) (MemoryAttributes_outerhints m) 0 0 (MemoryAttributes_shareable m) (MemoryAttributes_outershareable m))
     (mk_FullAddress (lf_pa l) (if secure then lf_ns l else 1)).
 Definition flat_desc_spec (secure : bool) (mva : Z) : AddressDescriptor :=
   mk_AddressDescriptor (mk_MemoryAttributes MemType_STRONGLY_ORDERED 0 0 0 0 0 0 1 1) (mk_FullAddress mva (if secure then 0 else 1)).
+Definition is_device (m : MemoryAttributes) : bool :=
+  (MemoryAttributes_type m =? MemType_DEVICE) || (MemoryAttributes_type m =? MemType_STRONGLY_ORDERED).
 
-Definition translate_spec (have_sec : Z) (s : machine) (va : Z) (ispriv iswrite wasaligned : bool) : outcome machine AddressDescriptor :=
+Definition translate_spec_gen (decode : Z -> Z -> MemoryAttributes) (have_sec : Z) (s : machine) (va : Z)
+           (ispriv iswrite wasaligned : bool) : outcome machine AddressDescriptor :=
   let w := if iswrite then 1 else 0 in
-  match vmsa_translate (negb (have_sec =? 0)) s (leaf_device s) va ispriv iswrite wasaligned with
+  match vmsa_translate (negb (have_sec =? 0)) s (fun l => is_device (decode (lf_texcb l) (lf_s l))) va ispriv iswrite wasaligned with
   | X_fault a vf lvl dom => Exc (EDataAbort (vf_dtype vf) 0) (vmsa_fault_state s a vf lvl dom w)
-  | X_ok l => Ok (leaf_desc (secure_of have_sec s) s l) s
+  | X_ok l => Ok (leaf_desc_gen decode (secure_of have_sec s) l) s
   | X_flat mva => Ok (flat_desc_spec (secure_of have_sec s) mva) s
   end.
+(* SCTLR.TRE = 1 (what the theorems cover) and SCTLR.TRE = 0 with the remap registers at their reset values *)
+Definition translate_spec (have_sec : Z) (s : machine) := translate_spec_gen (tex_remap (sreg s i_prrr) (sreg s i_nmrr)) have_sec s.
+Definition translate_spec_tre0 (have_sec : Z) (s : machine) := translate_spec_gen default_tex have_sec s.
 
 (* MemA through the translation: aligned accesses only (the alignment decision itself is C13) *)
 Definition pa_of_desc (d : AddressDescriptor) : Z := FullAddress_physicaladdress (AddressDescriptor_paddress d).
